@@ -46,10 +46,10 @@ def annotPart (g : Spec) (d : DNA) : List (String × J) :=
 def viewsOf (g : Spec) (d : DNA) : J :=
   let fl := flat d
   .obj ([("norm", dnaToJ d), ("flat", .arr (fl.map valToJ)), ("nested", nestToJ (toNested d)),
-         ("compact", nestToJ (toCompact d)),
+         ("compact", nestToJ (toCompactDeep d)),
          ("from_numbers", optDnaToJ (g.fromNumbers fl)),
          ("parse_nested", optDnaToJ (parse (toNested d))),
-         ("parse_compact", optDnaToJ (parse (toCompact d))),
+         ("parse_compact", optDnaToJ (parse (toCompactDeep d))),
          ("valid", .bool (g.valid d))] ++
         (match g.annot d with
          | none => [("beliefs", .null)]
